@@ -108,7 +108,25 @@ def state_diff():
     return out
 
 
+def _clear_function_caches():
+    """functools.lru_cache / cache on functions and methods of the audited modules: a fresh process starts with empty ones.  (Without this a
+    memo that survives from one *invocation* to the next inside a long-lived worker would look like a defect of the tool.)"""
+    for mod in M.values():
+        for v in list(vars(mod).values()):
+            owners = [v]
+            if isinstance(v, type) and v.__module__ == mod.__name__:
+                owners = [getattr(x, '__func__', x) for x in vars(v).values()]
+            for f in owners:
+                cc = getattr(f, 'cache_clear', None)
+                if callable(cc):
+                    try:
+                        cc()
+                    except Exception:
+                        pass
+
+
 def reset_state():
+    _clear_function_caches()
     for kind, owner, name, snap in _SNAP:
         live = getattr(owner, name)
         if live == snap:
